@@ -7,7 +7,9 @@ Open Scope N_scope.
 
 Theorem C17_opcode_tables_agree_refuted : opcode_tables_agree_b py_opcodes rs_opcodes = false.
 Proof. vm_compute. reflexivity. Qed.
+Print Assumptions C17_opcode_tables_agree_refuted.
 
 (* the reset vector: Python's RESET intrinsic reads 0xFFFFA, ENTRY_POINT_ADDR and the Rust core use 0xFFFFD *)
 Theorem C17_reset_vector_refuted : py_reset_vector_used <> rs_reset_vector.
 Proof. vm_compute. discriminate. Qed.
+Print Assumptions C17_reset_vector_refuted.
